@@ -118,8 +118,8 @@ mut("c12-lambda-no-fs-pop", "C12", TP,
     '        + indent_str("return res", indent + 1)',
     "a lambda that returns normally leaves itself on the active-function stack")
 mut("c12-while-body-pop-only-when-true", "C12", TP,
-    '            + indent_str("    ctx.context_values.pop()", indent)\n            + transpile_ast(\n                struct.condition, indent + 1, dict_compress=dict_compress\n            )',
-    '            + indent_str("    if len(stack) > 0: ctx.context_values.pop()", indent)\n            + transpile_ast(\n                struct.condition, indent + 1, dict_compress=dict_compress\n            )',
+    '            + indent_str("    ctx.context_values.pop()", indent)\n        )\n    if isinstance(struct, vyxal.structure.FunctionCall):',
+    '            + indent_str("    if len(stack) > 0: ctx.context_values.pop()", indent)\n        )\n    if isinstance(struct, vyxal.structure.FunctionCall):',
     "while loop pops its context value only when the stack is non-empty at the end of the body")
 
 # ---------------------------------------------------------------- C13
